@@ -3,6 +3,7 @@
 -/
 import Yld.Proofs.Store
 import Yld.Proofs.StoreShape
+import Yld.Proofs.RetractAllSpec
 namespace Yld.C07
 
 /-- assertz appends: the facts of name/arity afterwards are the old ones followed by the new
@@ -106,5 +107,35 @@ theorem retract_skips_facts_removed_meanwhile (f : Nat) (name : String) (args : 
 theorem retractall_keeps_a_sublist (f : Nat) (args : List Term) (cs keep : List Fact) (w w' : World) (keep' : List Fact)
     (h : retractAllLoop f args cs keep w = (w', .ok keep')) : ∃ sub, keep' = keep ++ sub ∧ sub.Sublist cs :=
   retractAll_keeps_sublist f args cs keep w w' keep' h
+
+/-- **retractall removes exactly the facts that unify with the pattern.** The bindings are as before;
+    the facts kept are — in their order — those for which no solution of the heap unifies the pattern
+    with a fresh copy of the fact (`RetractAllSpec.keep`); the facts dropped do unify with it, on an
+    acyclic heap when no cyclic term was built (`RetractAllSpec.drop`). For every pattern: non-linear
+    (`p(X,X)`), partially bound, aliased through the heap. -/
+theorem retractall_removes_exactly_the_unifying_facts (f : Nat) (args : List Term) (cs keep : List Fact) (w w' : World)
+    (keep' : List Fact) (h : retractAllLoop f args cs keep w = (w', .ok keep')) :
+    w'.b = w.b ∧ w'.db = w.db ∧
+    ∃ kept, keep' = keep ++ kept ∧ RetractAllSpec w.b args (Solvable w.b ∧ w'.cyc = false) w.next cs kept := by
+  obtain ⟨hb, hd, _, r⟩ := retractAll_spec f args cs keep w w' keep' h
+  exact ⟨hb, hd, r⟩
+
+/-- In particular a fact that survives does not unify with the pattern … -/
+theorem retractall_survivors_do_not_unify {b : Bind} {args : List Term} {acyc : Prop} :
+    ∀ {n : Nat} {cs kept : List Fact}, RetractAllSpec b args acyc n cs kept →
+      ∀ c ∈ kept, ∃ base, ¬ FactUnifies b base c args
+  | _, _, _, .nil _, c, hc => by cases hc
+  | _, _, _, .drop _ _ _ _ _ rest, c, hc => retractall_survivors_do_not_unify rest c hc
+  | n, _, _, .keep _ c' _ _ hno rest, c, hc => by
+      cases hc with
+      | head => exact ⟨n, hno⟩
+      | tail _ h' => exact retractall_survivors_do_not_unify rest c h'
+
+/-- … and the survivors are a sublist of the facts: nothing is added or reordered. -/
+theorem retractall_survivors_in_order {b : Bind} {args : List Term} {acyc : Prop} :
+    ∀ {n : Nat} {cs kept : List Fact}, RetractAllSpec b args acyc n cs kept → kept.Sublist cs
+  | _, _, _, .nil _ => .slnil
+  | _, _, _, .drop _ _ _ _ _ rest => .cons _ (retractall_survivors_in_order rest)
+  | _, _, _, .keep _ _ _ _ _ rest => .cons₂ _ (retractall_survivors_in_order rest)
 
 end Yld.C07
